@@ -385,6 +385,21 @@ func (e *Exec) heapGet(s *State, o *Obj) Value {
 	} else {
 		v = e.freshVal(o.Typ, o.Name)
 	}
+	if o.Global != nil {
+		// package-level sentinel errors and function variables with initialisers are non-nil
+		switch x := v.(type) {
+		case *IfaceV:
+			if e.w.globalInitNonNil(o.Global) {
+				e.note("package-level error variables initialised with errors.New / fmt.Errorf (and exported library sentinels) are non-nil")
+				v = &IfaceV{Nil: False, ID: x.ID}
+			}
+		case *FuncV:
+			if x.Fn == nil && e.w.globalStable(o.Global) && e.w.globalHasInit(o.Global) {
+				e.note("package-level function variables that have an initialiser are non-nil")
+				v = &FuncV{Nil: False, Name: o.Global.Name()}
+			}
+		}
+	}
 	e.lazyInit[o] = v
 	return v
 }
